@@ -16,13 +16,13 @@ rm -rf $OUT/demo; mkdir -p $OUT/demo; cp -r $S/* $OUT/demo/ 2>/dev/null; rm -f $
 # locate the demo command
 TAG=$(grep -ho "go:build [a-z_]*" $S/*.go $S/demo/*.go 2>/dev/null | head -1 | awk '{print $2}')
 mkdir -p $D/SEEDED/$I; cp -r $S/* $D/SEEDED/$I/
-if [ -f $S/demo/main.go ]; then DEMO="go run ./SEEDED/$I/demo"; else DEMO="go test -count=1 ${TAG:+-tags $TAG} ./SEEDED/$I/"; fi
+if [ -n "${DEMO_OVERRIDE:-}" ]; then DEMO="$DEMO_OVERRIDE"; elif [ -f $S/demo/main.go ]; then DEMO="go run ./SEEDED/$I/demo"; else DEMO="go test -count=1 ${TAG:+-tags $TAG} ./SEEDED/$I/"; fi
 cd $D
-$DEMO >/tmp/sc-demo-clean.$$ 2>&1; CLEAN=$?
+eval "$DEMO" >/tmp/sc-demo-clean.$$ 2>&1; CLEAN=$?
 git apply $S/patch.diff || { echo "PATCH-DOES-NOT-APPLY"; exit 9; }
 go build ./... || { echo "DOES-NOT-BUILD"; exit 9; }
 go test -count=1 ./... >/tmp/sc-suite.$$ 2>&1; SUITE=$?
-$DEMO >/tmp/sc-demo-seeded.$$ 2>&1; SEEDED=$?
+eval "$DEMO" >/tmp/sc-demo-seeded.$$ 2>&1; SEEDED=$?
 echo "confirm: demo-on-clean-exit=$CLEAN suite-with-change-exit=$SUITE demo-with-change-exit=$SEEDED  ($DEMO)"
 [ -n "$RUNS" ] && export VERIF_RUNS=$RUNS
 START=$(date +%s)
